@@ -44,7 +44,8 @@ pub fn update_config(
     if let Some(new_fees) = new_vault_fees {
         new_fees.is_valid()?;
 
-        if has_factory_token(&[config.clone().lp_asset])
+        // the burn fee is taken in the vault's asset, the rule applies to it as in instantiate
+        if has_factory_token(&[config.asset_info.clone(), config.lp_asset.clone()])
             && new_fees.burn_fee.share > Decimal::zero()
         {
             return Err(VaultError::TokenFactoryAssetBurnDisabled {});
